@@ -692,7 +692,7 @@ func c14Class(c *c14Case, out *c14Out) string {
 func init() {
 	props["C14"] = func(ctx *Ctx) {
 		ctx.Header("M3CloseCorr")
-		ctx.Res.Rule = "controlled case = (queue capacity, protocol, per-thread call lists over {ReportCount, ReportSamples on one shared bucket handle, Flush, Close}, step at which the sink is closed, extra destinations (1..3 HostPorts: unreachable before / after the sink, a second live sink), complete schedule over the yield points of reportCopyMetric / Flush / Close / process()); compared with the model: label or Blocked after every step, values received by the sink in order, result of every Close; exhaustive enumeration of all interleavings of two small pools, seeded random schedules (half of them starving process() so that the queue fills) for larger pools; non-trivial = two threads interleaved inside the protocol; distinct by (pool, capacity, executed schedule). Storm cases (class storm-*) are uncontrolled and checked only by the direct predicate (no panic, no hang, one nil Close, no goroutine of package m3 left; storm-concurrent-close = 8..32 goroutines behind a barrier calling Close on a fresh reporter, repeated; multi-destination = a reporter with 2..3 HostPorts (extra destinations unreachable or live), rounds of ReportCount + Flush one datagram each, optionally the sink closed half-way, then Close and the goroutine-leak check over package m3 and its transports; storm-flush-heavy = 2..6 goroutines calling Flush in a tight loop while 1..3 report, queues 1..4096, every call under recover(); storm-concurrent-allocate = goroutines allocate histograms with one tag set at the same time and every handle must equal (per-bucket sizes, ids, names) the one allocated alone on a fresh reporter; storm-shared-{bucket,counter,gauge,timer} = all goroutines report unique values through ONE allocated handle and no value may reach the sink more often than it was reported)"
+		ctx.Res.Rule = "controlled case = (queue capacity, protocol, per-thread call lists over {ReportCount, ReportSamples on one shared bucket handle, Flush, Close}, step at which the sink is closed, extra destinations (1..3 HostPorts: unreachable before / after the sink, a second live sink), complete schedule over the yield points of reportCopyMetric / Flush / Close / process()); compared with the model: label or Blocked after every step, values received by the sink in order, result of every Close; exhaustive enumeration of all interleavings of two small pools, seeded random schedules (half of them starving process() so that the queue fills) for larger pools; non-trivial = two threads interleaved inside the protocol; distinct by (pool, capacity, executed schedule). Storm cases (class storm-*) are uncontrolled and checked only by the direct predicate (no panic, no hang, one nil Close, no goroutine of package m3 left; storm-concurrent-close = 8..32 goroutines behind a barrier calling Close on a fresh reporter, repeated; size-sweep = Allocate / Report / Flush / Close for metrics with every own-tag count 0..33 and reporters with 0..8 InternalTags, run in a child process so that a panic of the reporter's own goroutine becomes a failing input; multi-destination = a reporter with 2..3 HostPorts (extra destinations unreachable or live), rounds of ReportCount + Flush one datagram each, optionally the sink closed half-way, then Close and the goroutine-leak check over package m3 and its transports; storm-flush-heavy = 2..6 goroutines calling Flush in a tight loop while 1..3 report, queues 1..4096, every call under recover(); storm-concurrent-allocate = goroutines allocate histograms with one tag set at the same time and every handle must equal (per-bucket sizes, ids, names) the one allocated alone on a fresh reporter; storm-shared-{bucket,counter,gauge,timer} = all goroutines report unique values through ONE allocated handle and no value may reach the sink more often than it was reported)"
 		nsched := 0
 		one := func(c *c14Case, known string) bool {
 			out, _ := c14Exec(c, true)
@@ -727,6 +727,18 @@ func init() {
 		}
 		if ctx.Replay != nil {
 			var raw map[string]json.RawMessage
+			if json.Unmarshal(ctx.Replay, &raw) == nil && raw["size_sweep"] != nil {
+				var sw c14SizeSweep
+				if err := json.Unmarshal(ctx.Replay, &sw); err != nil {
+					fatal(err)
+				}
+				if sw.Inner {
+					c14SizeInner(ctx, &sw)
+				} else {
+					c14SizeSweepOne(ctx, &sw)
+				}
+				return
+			}
 			if json.Unmarshal(ctx.Replay, &raw) == nil && raw["multi_dest"] != nil {
 				var md c14MultiDest
 				if err := json.Unmarshal(ctx.Replay, &md); err != nil {
